@@ -197,7 +197,7 @@ func (t *C04Table) Content(sids []uint64) ([]C04Row, error) {
 		return nil, nil
 	}
 	defer snp.decRef()
-	pp, _ := snp.getParts(nil, storage.NewShardCache("verif", 0, 0), 0, 1<<62)
+	pp, _ := snp.getParts(nil, storage.NewBypassCache(), 0, 1<<62)
 	ss := make([]common.SeriesID, len(sids))
 	for i := range sids {
 		ss[i] = common.SeriesID(sids[i])
